@@ -22,7 +22,7 @@ LabV(ve, n) ==
 LabC(c, n) == IF IsNone(c) THEN [v |-> c, n |-> n] ELSE [v |-> [c EXCEPT !.id = n], n |-> n + 1]
 LabSimple(s, n) ==   \* simple statements, initialisers and post statements
   IF IsNone(s) THEN [v |-> s, n |-> n]
-  ELSE CASE s.k \in {"eff", "passign", "effkv", "effkk", "effw", "retx"} -> [v |-> [s EXCEPT !.id = n], n |-> n + 1]
+  ELSE CASE s.k \in {"eff", "passign", "effkv", "effkk", "effw", "retx", "pullit"} -> [v |-> [s EXCEPT !.id = n], n |-> n + 1]
          [] s.k = "yield" -> LET r == LabV(s.v, n) IN [v |-> [s EXCEPT !.v = r.v], n |-> r.n]
          [] s.k = "effx" -> LET r == LabV(s.v, n + 1) IN [v |-> [s EXCEPT !.id = n, !.v = r.v], n |-> r.n]
          [] s.k = "yfrom" -> LET r == LabV(s.arg, n) IN [v |-> [s EXCEPT !.arg = r.v], n |-> r.n]
@@ -38,7 +38,7 @@ LabCases(cs, n) ==
 LabS(s, n) ==
   CASE s.k = "if" -> LET c == LabC(s.c, n) a == LabB(s.a, c.n) b == LabB(s.b, a.n) IN
                      [v |-> [s EXCEPT !.c = c.v, !.a = a.v, !.b = b.v], n |-> b.n]
-    [] s.k = "switch" -> LET c == LabC(s.c, n) cs == LabCases(s.cases, c.n) IN
+    [] s.k = "switch" -> LET c == LabC(s.c, n) cs == LabCases(s.cases, IF s.form = "typeb" THEN c.n + 1 ELSE c.n) IN
                      [v |-> [s EXCEPT !.c = c.v, !.cases = cs.v], n |-> cs.n]
     [] s.k = "block" -> LET b == LabB(s.body, n) IN [v |-> [s EXCEPT !.body = b.v], n |-> b.n]
     [] s.k = "unsup" -> [v |-> [s EXCEPT !.id = n], n |-> n + 4]      \* four ids reserved for the parts of the construct
@@ -67,7 +67,7 @@ T0 == [k |-> "t", id |-> 0]
 Jumps(A, ctx) == (IF "retx" \in A.jumps THEN {[k |-> "retx", id |-> 0]} ELSE {}) \cup {[k |-> j] : j \in A.jumps \cap ({"return"} \cup (IF ctx # "top" THEN {"break"} ELSE {})
                                                            \cup (IF InLoop(ctx) THEN {"continue"} ELSE {}))}
 \* an infinite loop must make progress: its first body statement spends budget, yields or leaves
-Productive(c, body) == ~IsNone(c) \/ (body # <<>> /\ Head(body).k \in {"eff", "effx", "unsup", "yield", "yfrom", "if", "switch", "break", "return", "retx", "panic"})
+Productive(c, body) == ~IsNone(c) \/ (body # <<>> /\ Head(body).k \in {"eff", "effx", "unsup", "pullit", "yield", "yfrom", "if", "switch", "break", "return", "retx", "panic"})
 Case(g, body) == [g |-> g, body |-> body, ft |-> FALSE]
 Switch(init, form, cases) == [k |-> "switch", init |-> init, form |-> form, c |-> T0, cases |-> cases]
 
@@ -86,6 +86,9 @@ Composite(A, n, ctx, B(_, _)) ==
         ELSE {})
   \cup (IF "tswitch" \in A.kinds     \* switch x := r.Any(id).(type) { case int: a  default: d }
         THEN UNION {{Switch(None, "type", <<Case("t", a), Case("d", d)>>) : a \in B(j, SwCtx(ctx)), d \in B(n - 1 - j, SwCtx(ctx))} : j \in 0..(n - 1)}
+        ELSE {})
+  \cup (IF "tswitchb" \in A.kinds    \* switch [init;] tv := r.AnyA(id, a).(type) { case int: r.E(id+1, tv, 0); a  default: d }
+        THEN UNION {{Switch(i, "typeb", <<Case("t", a), Case("d", d)>>) : i \in A.ifinits, a \in B(j, SwCtx(ctx)), d \in B(n - 1 - j, SwCtx(ctx))} : j \in 0..(n - 1)}
         ELSE {})
   \cup (IF "notag" \in A.kinds       \* switch { case r.T(id): a  default: d }
         THEN UNION {{Switch(None, "notag", <<Case("t", a), Case("d", d)>>) : a \in B(j, SwCtx(ctx)), d \in B(n - 1 - j, SwCtx(ctx))} : j \in 0..(n - 1)}
